@@ -2,10 +2,13 @@ package main
 
 
 func busGuards(R *BusRoles) []guardSpec {
+	M := discoverMem(R.P)
 	g := []guardSpec{
 		{"EventBus", R.BusLastOffset, R.BusStoreMu},
-		{"MemoryStore", "events", "mu"}, {"MemoryStore", "subscriptions", "mu"}, {"MemoryStore", "nextOffset", "mu"},
-		{"MemoryStore", "data", "mu"}, {"Materializer", "collections", "mu"}, {"Materializer", "lastOffset", "mu"},
+		{"MemoryStore", M.Events, M.Mu}, {"MemoryStore", M.Subs, M.Mu}, {"MemoryStore", M.Counter, M.Mu},
+	}
+	if M.StData != "" {
+		g = append(g, guardSpec{"MemoryStore", M.StData, M.StMu}, guardSpec{"Materializer", M.MatColl, M.MatMu}, guardSpec{"Materializer", M.MatOffset, M.MatMu})
 	}
 	if R.ShardT != nil {
 		g = append(g, guardSpec{R.ShardT.Obj().Name(), R.ShardMap, R.ShardMu})
